@@ -89,8 +89,20 @@ def check(prog, res, tier):
         entry = p.interp.user['entry']
         proc = p.interp.resolve(entry.items['field_processor'])
         pk = p.interp.py_key(proc)
+        if pk is None and isinstance(proc, SymV):
+            # the processor was never tested on this path: the path is the same for every value it may still have
+            ch = p.interp.sym_choices(proc) if hasattr(p.interp, 'sym_choices') else proc.choices
+            pans = [c for c in (ch or ()) if c in ('PAN', 'PAN-PREFIX')]
+            out = []
+            for c in pans:
+                out += chk_taint_for(p, mode, c)
+            return out
         if pk not in ('PAN', 'PAN-PREFIX'):
             return []
+        return chk_taint_for(p, mode, pk)
+
+    def chk_taint_for(p, mode, pk):
+        entry = p.interp.user['entry']
         md = p.interp.user['md'].segs[0].src
         st = p.store
         # field region = the value slice (last closed slice of md in the unit frame)
@@ -140,6 +152,25 @@ def check(prog, res, tier):
         return fails
     res.add(uf.runs.judge('C16.b', 'under the PAN / PAN-PREFIX processor only the masked value / first nine characters reach the '
                                    'returned dictionary', func_where(uf.fi), "return_values['DE' + str(bit)] = field_data", chk_taint))
+
+    # the same, for PAN processors configured on a typed (int / long / decimal / datetime) element: outside A1, but the
+    # processor must still win over the type conversion (the pinned code masks first; the conversion of a masked value fails)
+    def entry_typed(it):
+        from . import common as _c
+        bit = it.sym_int('bit', 2, 127)
+        e = _c.generic_entry(it)
+        e.items['field_processor'] = SymV(f'{e.entry_name}.field_processor', 'str', choices=('PAN', 'PAN-PREFIX'))
+        e.items['field_python_type'] = SymV(f'{e.entry_name}.field_python_type', 'str', choices=tuple(t for t in _c.PYTYPES if t))
+        md = it.sym_bytes('message_data', tags=frozenset(['wire']))
+        it.user['md'] = md
+        it.user['entry'] = e
+        from .decode import codec as _codec
+        return it.call_function(uf.fi, [bit, e, md, _codec(it)], {})
+    runs_typed = Runs(prog, entry_typed, summaries=du.leaf_summaries, hooks=__import__('cardverif.rules.common', fromlist=['HOOKS']).HOOKS, res=res)
+    res.add(runs_typed.judge('C16.b', 'a PAN / PAN-PREFIX processor on a typed element (int, long, decimal, datetime) still never stores '
+                                      'the clear value: the processor is applied before any type conversion', func_where(uf.fi),
+                             "if field_processor == 'PAN': field_data = mask(field_data)  (before _string_to_pytype)", chk_taint,
+                             rule='C16.b.typed'))
 
     # ---- C16.c no other channel
     dfi = prog.func('iso8583._iso8583_to_dict') if prog.has_func('iso8583._iso8583_to_dict') else prog.func('iso8583.loads')
